@@ -146,6 +146,8 @@ pub struct Profile {
     pub p_id_mix: f64,
     /// dense ids are drawn in `0 .. dense_span_factor * expected items + 4`
     pub dense_span_factor: f64,
+    /// added to every id of the dense style (item ids in the range of the tree-node ids a build hands out)
+    pub dense_offset: u32,
     pub families: Vec<(u32, Family)>,
     pub p_family_mix: f64,
 
@@ -646,7 +648,7 @@ impl<'p> Gen<'p> {
         };
         let r = &mut self.r;
         match style {
-            IdStyle::Dense => r.below(self.idx[i].dense_span.max(2)) as u32,
+            IdStyle::Dense => self.p.dense_offset + r.below(self.idx[i].dense_span.max(2)) as u32,
             IdStyle::Sparse => r.next_u32(),
             IdStyle::Boundary => {
                 if r.chance(0.6) {
